@@ -174,6 +174,8 @@ struct Case {
     /// validate the untampered answer first with the same context (warm
     /// caches), then the tampered one; lookup faults are not used then
     warm: bool,
+    /// query name (relative) and type outside the RELS/QTYPES tables
+    special: Option<(&'static str, u16)>,
 }
 
 fn zone_shape(u: &mut Unstructured, root: bool) -> ZoneShape {
@@ -213,6 +215,7 @@ fn decode(u: &mut Unstructured, restricted: Option<&[SKind]>, plain_world: bool)
     // still give tampered queries (in the plainest world).
     let qzone = [2usize, 2, 2, 1, 3, 0, 4, 2, 1, 3, 2, 4, 5, 6, 7, 9][pick(u, 16)];
     let mode = pick(u, 8);
+    let mut special: Option<(&'static str, u16)> = None;
     let (rel, qtype, lie) = if mode == 7 {
         (0, T_A, Some(pick(u, 10)))
     } else {
@@ -222,6 +225,16 @@ fn decode(u: &mut Unstructured, restricted: Option<&[SKind]>, plain_world: bool)
         // replayed-wildcard-NSEC lies, variants 10..)
         if mode == 6 && rel % 2 == 1 {
             (0, T_A, Some(10 + (rel / 2) % 4))
+        } else if mode == 5 && rel % 2 == 1 {
+            // (added later, same octet consumption: queries below the DNAME
+            // and the DNAME lies, variants 14..)
+            let k = (rel / 2) % 12;
+            if k < 5 {
+                special = Some((["a.dn", "b.dn", "zz.a.dn", "dn", "a.dn"][k], [T_A, T_A, T_A, T_DNAME, T_TXT][k]));
+                (0, T_A, None)
+            } else {
+                (0, T_A, Some(14 + (k - 5)))
+            }
         } else {
             (rel, qtype, None)
         }
@@ -267,7 +280,7 @@ fn decode(u: &mut Unstructured, restricted: Option<&[SKind]>, plain_world: bool)
         z[ta_zone].alg = Alg::P256;
     }
     let shape = Shape { z, ta: if plain_world && !matches!(ta, Ta::RootDs | Ta::RootDnskey | Ta::RootBoth) { Ta::RootDs } else { ta } };
-    Case { shape, qzone, rel, qtype, lie, authority_ns, answer_fault, up_faults, bad_sigs, via_connection, warm }
+    Case { shape, qzone, rel, qtype, lie, authority_ns, answer_fault, up_faults, bad_sigs, via_connection, warm, special }
 }
 
 fn st(v: ValidationState) -> Status {
@@ -316,9 +329,10 @@ fn run_case(case: &Case, ctx: &mut Ctx) -> CaseResult {
     let (qname, qtype, mut resp, lie_label) = match case.lie.and_then(|v| lie(&w, case.qzone, v)) {
         Some((n, t, r, l)) => (n, t, r, Some(l)),
         None => {
-            let n = rel_name(RELS[case.rel], &qz.apex);
-            let r = resolve(&w, &n, case.qtype);
-            (n, case.qtype, r, None)
+            let (rel, qt) = case.special.unwrap_or((RELS[case.rel], case.qtype));
+            let n = rel_name(rel, &qz.apex);
+            let r = resolve(&w, &n, qt);
+            (n, qt, r, None)
         }
     };
     if case.authority_ns && lie_label.is_none() {
@@ -621,7 +635,7 @@ fn run_case(case: &Case, ctx: &mut Ctx) -> CaseResult {
             return Ok(());
         }
         if lie_secure || !truth_expected.as_ref().map(|e| e.contains(&Status::Secure)).unwrap_or(false) {
-            vensure!(!is_secure, format!("soundness:secure-for-false-denial:{l}:{:?}", w.zones[case.qzone].shape.denial), "a denial of existing data built from genuine records was accepted as Secure\n{}", describe());
+            vensure!(!is_secure, format!("soundness:{}:{l}:{:?}", if l.starts_with("lie-dname") { "secure-for-forged-answer" } else { "secure-for-false-denial" }, w.zones[case.qzone].shape.denial), "a false statement dressed with genuine signed records was accepted as Secure\n{}", describe());
         }
         return Ok(());
     }
@@ -768,6 +782,12 @@ fn health(c: &BTreeMap<String, u64>, thorough: bool) -> Result<(), String> {
         ("query:lie-nodata", 100),
         ("query:lie-nxdomain", 100),
         ("query:lie-wildcard", 50),
+        ("query:dname+positive", 200),
+        ("query:dname+n", 100),
+        ("query:lie-dname-cname-sibling-target", 100),
+        ("query:lie-dname-cname-", 300),
+        ("query:lie-dname-without-signature", 30),
+        ("query:lie-dname-second-forged-cname", 30),
         ("query:lie-nxdomain-wildcard-nsec-replayed-one-label", 100),
         ("query:lie-nxdomain-wildcard-nsec-replayed-two-labels", 30),
         ("zone-status:Secure", 3000),
